@@ -12,3 +12,16 @@ package babbage
 //@   ensures lower: err == nil ==> start == 0 || slot >= start
 //@   ensures upper: err == nil ==> ttl == 0 || slot < ttl
 //@   cover accepts: err == nil && start != 0 && ttl != 0
+
+// C32: from Babbage on the collateral balance is the inputs' coin minus the collateral return.
+//@ func UtxoValidateInsufficientCollateral(tx, slot, ls, pp) (err)
+//@   props C32
+//@   let ins = tx.Collateral()
+//@   let atx = unbox(tx, type(*BabbageTransaction))
+//@   let app = unbox(pp, type(*BabbageProtocolParameters))
+//@   let typed = dyn(tx) == type(*BabbageTransaction) && dyn(pp) == type(*BabbageProtocolParameters)
+//@   let bal = common.collSum(ins, ls, len(ins)) - common.collReturnAmt(tx)
+//@   ensures types: !typed ==> err != nil
+//@   ensures exact: typed && err == nil && len(atx.WitnessSet.WsRedeemers.Redeemers) != 0 ==> bal * 100 >= N(atx.Body.TxFee) * N(app.CollateralPercentage)
+//@   cover accepts: typed && err == nil && len(atx.WitnessSet.WsRedeemers.Redeemers) != 0 && len(ins) > 0
+//@   loop 0 invariant rangeindex < len(ins) && val(totalCollateral) == common.collSum(ins, ls, rangeindex + 1)
